@@ -5,10 +5,15 @@
 EXTENDS ConnScen
 CONSTANT Family
 MCReg == {IfA, IfB}
+MCRegB == TRegB
+MCRegC == TRegC
 ScenSet == CASE Family = "F1" -> F1
              [] Family = "F2" -> F2
              [] Family = "F3" -> F3
              [] Family = "All" -> All
+             [] Family = "F4" -> F4
+             [] Family = "F5" -> F5
+             [] Family = "F6" -> F6
              [] OTHER -> Multi
 MCInit == IF Family = "Multi"
           THEN \E f \in [Conns -> Multi] : InitWith(f)
